@@ -224,6 +224,15 @@ func (CrashScenario) Execute(sim *sched.Sim, ci interface{}, prop string, race b
 	cr := &crashRun{c: c, sim: sim, h: h, acked: map[string]*idxRec{}}
 	sim.Optional = nil // all points on: every instrumented point is a crash point
 	sim.RoleOf = roleOf
+	// Init hands its seeds to OnChange in Go map iteration order, which the
+	// simulator cannot control: seed ids are blanked in the trace, and the
+	// oracle does not depend on that order
+	sim.Canon = func(a string) string {
+		if len(a) == 2 && a[0] == 's' {
+			return "s?"
+		}
+		return a
+	}
 	badgerstore.VerifHook = sim.Yield
 	keylock.Hook = sim.Yield
 	defer func() { badgerstore.VerifHook = nil; keylock.Hook = nil }()
